@@ -155,6 +155,8 @@ def traversal_shapes(f: FuncInfo, recv: ClassInfo | None = None) -> dict:
 
 
 def _allowed_test(t) -> bool:
+    if isinstance(t, ast.NamedExpr):
+        return _allowed_test(t.value)      # `x.replace_table(...) if (x := self._wheres) else None`
     if isinstance(t, ast.Name):
         return True
     if isinstance(t, ast.Attribute) and isinstance(t.value, ast.Name):
@@ -174,6 +176,54 @@ def _allowed_test(t) -> bool:
         return True
     return False
 
+
+
+def _declared_classes(program: Program, owner: ClassInfo, attr: str) -> list:
+    """package classes named in the annotation of `self.<attr>: ...` along the MRO"""
+    for k in owner.mro:
+        for f in k.methods.values():
+            for n in ast.walk(f.node):
+                if isinstance(n, ast.AnnAssign) and isinstance(n.target, ast.Attribute) and n.target.attr == attr:
+                    out = []
+                    for x in ast.walk(n.annotation):
+                        names = [x.id] if isinstance(x, ast.Name) else ([w for w in __import__("re").findall(r"[A-Za-z_]\w*", x.value)] if isinstance(x, ast.Constant) and isinstance(x.value, str) else [])
+                        for nm in names:
+                            r = program.resolve_global(f.module, nm)
+                            if r and r[0] == "class":
+                                out.append(r[1])
+                    return out
+    return []
+
+
+def _narrow_type_tests(program: Program, f: FuncInfo, test, call, attr, noop):
+    """[(tested class names, classes left out)] for every positive `isinstance(<receiver of the rewrite>, K)` in `test` whose K
+    does not cover every class the attribute may hold that has table references to rewrite"""
+    recv = call.func.value
+    rname = recv.id if isinstance(recv, ast.Name) else None
+    if rname is None:
+        return []
+    out = []
+    term = program.cls("Term")
+    declared = (_declared_classes(program, f.cls, attr) if f.cls is not None and attr else []) or [term]
+    holders = [d for d in program.all_classes() if any(d.is_subclass_of(k) for k in declared) and d.resolve("replace_table") not in (None, noop)]
+
+    def rec(t, positive):
+        if isinstance(t, ast.UnaryOp) and isinstance(t.op, ast.Not):
+            rec(t.operand, not positive)
+        elif isinstance(t, ast.BoolOp):
+            for v in t.values:
+                rec(v, positive)
+        elif (isinstance(t, ast.Call) and isinstance(t.func, ast.Name) and t.func.id == "isinstance" and len(t.args) == 2 and positive
+              and isinstance(t.args[0], ast.Name) and t.args[0].id == rname):
+            spec = t.args[1]
+            ks = [program.resolve_expr_class(f.module, e, None) for e in (spec.elts if isinstance(spec, ast.Tuple) else [spec])]
+            if not ks or not all(ks):
+                return
+            left = sorted(d.qualname for d in holders if not any(d.is_subclass_of(k) for k in ks))
+            if left:
+                out.append(("|".join(k.qualname for k in ks), left))
+    rec(test, True)
+    return out
 
 def _tuple_store_arities(program: Program, c, attr: str) -> set:
     """arities of the tuples that methods of c (and its subclasses / bases) put into self.<attr>: append((..)),
@@ -215,6 +265,17 @@ def _tuple_store_arities(program: Program, c, attr: str) -> set:
     return out
 
 
+def _own_nodes(fnode):
+    """nodes of a function body without the bodies of functions / lambdas defined inside it"""
+    stack = list(ast.iter_child_nodes(fnode))
+    while stack:
+        n = stack.pop()
+        yield n
+        if isinstance(n, (ast.FunctionDef, ast.AsyncFunctionDef, ast.Lambda)):
+            continue
+        stack.extend(ast.iter_child_nodes(n))
+
+
 def is_noop(f: FuncInfo) -> bool:
     body = [s for s in f.node.body if not (isinstance(s, ast.Expr) and isinstance(s.value, ast.Constant))]
     return len(body) == 1 and isinstance(body[0], ast.Return) and isinstance(body[0].value, ast.Name) and body[0].value.id == f.params[0]
@@ -236,9 +297,24 @@ def check(program: Program, run: Run) -> None:
     run.rule("R6 every nested replace_table / helper call receives (current_table, new_table) in the order of the enclosing function's own parameters")
     run.rule("R5b replace_table has no early exit except on identity / None / type tests (== between tables is coarser than their rendering)")
     run.rule("R5 a child is rewritten unconditionally: the only tests allowed around x.replace_table(...) are type/None tests on x or comparisons with the tables being exchanged")
+    run.rule("R8 `item == current_table` over a list of row sources is a truth value for every kind of row source (a source that inherits the criterion-building Term.__eq__ equals every table)")
     _PROGRAM[:] = [program]
     term = program.cls("Term")
     sel = program.cls("Selectable")
+    from .c11 import _builds_an_object
+    for c in sorted(program.all_classes(), key=lambda k: k.qualname):
+        if c is sel or not c.is_subclass_of(sel):
+            continue
+        eq = c.resolve("__eq__")
+        if eq is not None and any(b is not c and b is not sel and b.is_subclass_of(sel) and b.resolve("__eq__") is eq for b in c.mro):
+            continue        # judged at the row-source class it inherits the method from
+        built = _builds_an_object(program, eq, c) if eq is not None else None
+        run.ob("C16/R8 == of a row source answers with a truth value", c.qualname, built is None, detail=eq.qualname if eq else "object identity", where=eq.loc() if eq else None,
+               nontrivial=eq is not None)
+        if built is not None:
+            run.finding(f"C16/source-equality-not-boolean:{c.qualname}",
+                        f"a {c.qualname} can sit in a FROM / join list, but its == ({eq.qualname}) {built} (always truthy): the element-wise "
+                        f"`new_table if item == current_table else item` of replace_table exchanges the {c.qualname} for new_table whatever current_table is", where=eq.loc(), rule="R8")
     noop = term.methods.get("replace_table")
     if noop is None or not is_noop(noop):
         raise AnalysisError("anchor vanished: Term.replace_table is no longer the documented no-op")
@@ -293,6 +369,18 @@ def check(program: Program, run: Run) -> None:
                         tests += g.ifs
                 for t in tests:
                     ok5 = _allowed_test(t)
+                    if ok5:
+                        # a type test is a presence test only while it is at least as wide as what the attribute may
+                        # hold: narrowed to one subclass it leaves every other kind of child with the old table
+                        st5 = n
+                        while st5 in parents and not isinstance(st5, ast.stmt):
+                            st5 = parents[st5]
+                        a5 = next((a_.attr for a_ in ast.walk(st5) if isinstance(a_, ast.Attribute) and isinstance(a_.value, ast.Name) and a_.value.id == f.params[0]), None)
+                        for narrow, left_out in _narrow_type_tests(program, f, t, n, a5, noop):
+                            run.ob("C16/R5 child rewritten unconditionally", f"{f.qualname}:{ast.unparse(t)[:50]}", False, where=f.loc(n))
+                            run.finding(f"C16/type-test-too-narrow:{f.qualname}:{a5 or '?'}:{narrow}",
+                                        f"{f.qualname} rewrites a child of `{a5}` only when it is a {narrow}; the attribute may also hold {', '.join(left_out[:4])}"
+                                        f"{' ...' if len(left_out) > 4 else ''}, whose table references keep the old table", where=f.loc(n), rule="R5")
                     if not ok5:
                         st5 = n
                         while st5 in parents and not isinstance(st5, ast.stmt):
@@ -340,7 +428,7 @@ def check(program: Program, run: Run) -> None:
     for f in defs:
         if f is noop:
             continue
-        for n in ast.walk(f.node):
+        for n in _own_nodes(f.node):       # (a `return` inside a local helper function leaves the helper, not replace_table)
             if isinstance(n, ast.If) and any(isinstance(x, (ast.Return, ast.Raise)) for b in (n.body, n.orelse) for x in b):
                 nexit += 1
                 ok5 = _identity_test(n.test)
